@@ -97,6 +97,9 @@ func genValFor(r *rand.Rand, ty string, flavour string) Val {
 		if chance(r, 0.2) {
 			return StrVal(itoa(int64(r.Intn(9))))
 		}
+		if chance(r, 0.15) {
+			return StrVal(itoa(int64(-1 - r.Intn(3)))) // negative numeric string: must fail
+		}
 		return NumVal(int64(r.Intn(9)))
 	case "string":
 		return StrVal(pick(r, []string{"a", "b", "", "5"}))
